@@ -477,6 +477,14 @@ func c19Build(k int, al alloc) *c19In {
 		}
 	}
 	in.Encs = append(in.Encs, al.bytes(bitstr.New("stemSTEMstem", 0, 77)), al.bytes(bitstr.New("stemSTEMs", 0, 72)))
+	// encodings that bitstr.New does NOT produce (a 1-bit in the last payload byte outside the trailing mask,
+	// a trailing byte that is no mask, a lone trailing byte): purity is promised for every slice passed in,
+	// not only for canonical ones, and every oracle here is differential (same result in every order and
+	// schedule, no store into the argument), so no reference value is needed for them
+	for _, e := range [][]byte{{0x61, 0x6f, 0xf0}, {0xff, 0xff, 0x80}, {0x61, 0x62, 0x63, 0xff, 0xc0}, {0x61, 0x55}, {0x80}, {0xff}, {0x00, 0x00},
+		{'s', 't', 'e', 'm', 'S', 'T', 'E', 'M', 0xff, 0xe0}, {'s', 't', 'e', 'm', 'S', 'T', 'E', 0xff, 0xfe}} {
+		in.Encs = append(in.Encs, al.bytes(e))
+	}
 	in.Vals = al.u64s([]uint64{0, 1, ^uint64(0), 0xa5a5a5a5a5a5a5a5, 1 << 63, uint64(k) + 2, 0x0f0f})
 	in.Mask = []int32{0x2d, 0x3f, 0x20, 0x35}[k%4]
 	ref := int32(in.Mask)
@@ -519,6 +527,11 @@ func c19Build(k int, al alloc) *c19In {
 			in.WordLists = append(in.WordLists, al.bytes(full[:len(full)-cut]))
 			in.WordWidths = append(in.WordWidths, w)
 		}
+	}
+	// word lists with OUT-OF-RANGE words (>= 2^width): ToStr's result for them is not specified, its purity is
+	for _, w := range []int{1, 2, 4} {
+		in.WordLists = append(in.WordLists, al.bytes([]byte{0xff, 1, 0x80, 3, 0x7f, 0, 0xa5, 1, 2}))
+		in.WordWidths = append(in.WordWidths, w)
 	}
 	for _, l := range []int{1, 2, 3, 63, 64, 65, 126, 127, 128, 129, 254, 255, 256, 257, 510, 511, 512, 513, 1022, 1023, 1024, 1025} {
 		lw := make([]uint64, l)
